@@ -28,7 +28,9 @@ unedited torrent.
 """
 
 import os
+import shutil
 import logging
+import tempfile
 
 import pyben
 
@@ -141,6 +143,36 @@ def edit_torrent(metafile: str, args: dict) -> dict:
         info = sort_keys(info)
     meta["info"] = info
     meta = sort_keys(meta)
-    os.remove(metafile)
-    pyben.dump(meta, metafile)
+    write_metafile(meta, metafile)
     return meta
+
+
+def write_metafile(meta: dict, metafile: str):
+    """
+    Replace the metafile with the encoded meta dictionary in one step.
+
+    The data is encoded first, written to a temporary file in the same
+    directory and then moved over the original, so that the metafile path
+    always holds either the complete old or the complete new contents.
+
+    Parameters
+    ----------
+    meta : dict
+        the meta dictionary to encode.
+    metafile : str
+        path to the torrent meta file.
+    """
+    encoded = pyben.dumps(meta)
+    folder = os.path.dirname(os.path.abspath(metafile))
+    tempfd, temppath = tempfile.mkstemp(dir=folder, suffix=".tmp")
+    try:
+        with os.fdopen(tempfd, "wb") as temp:
+            temp.write(encoded)
+            temp.flush()
+            os.fsync(temp.fileno())
+        shutil.copymode(metafile, temppath)
+        os.replace(temppath, metafile)
+    except BaseException:
+        if os.path.exists(temppath):
+            os.remove(temppath)
+        raise
